@@ -699,6 +699,9 @@ class GriffeLoader:
                 parent_namespace = parent_module.is_namespace_package or parent_module.is_namespace_subpackage
                 if parent_namespace and module_filepath not in parent_module.filepath:  # type: ignore[operator]
                     parent_module.filepath.append(module_filepath)  # type: ignore[union-attr]
+                elif not parent_namespace and not parent_module.is_alias and not parent_module.is_init_module:
+                    # The parent is a plain module (`bar.py` next to a `bar/` folder): Python cannot import below it.
+                    raise UnimportableModuleError(f"Skip {subpath}, its parent {parent_module.path} is not a package")
         return parent_module
 
     def _expand_wildcard(self, wildcard_obj: Alias) -> list[tuple[Object | Alias, int | None, int | None]]:
